@@ -160,6 +160,9 @@ pub fn node(args: &Args) {
         let mut f_log: Vec<(u64, u64)> = vec![];
         let mut hash_ctr = 0u8;
         let mut last_refused: Option<(u8, u64)> = None;
+        let mut last_route = 0u8;
+        let mut last_invoice_time = 0u64;
+        let mut last_invoice: Option<lightning_signer::invoice::Invoice> = None;
         let snapshot = |node: &std::sync::Arc<lightning_signer::node::Node>| {
             let st = node.get_state();
             let (pm, fm) = (st.velocity_control.clone(), st.fee_velocity_control.clone());
@@ -284,7 +287,11 @@ pub fn node(args: &Args) {
                 let amt = forced.map(|f| f.2).unwrap_or(amt);
                 // a refused request is sometimes sent again unchanged (same hash, same amount): it
                 // must be judged afresh, an earlier refusal leaves nothing behind
-                let retry = forced.is_none() && last_refused.is_some() && rng.chance(1, 2);
+                // (a BOLT11 invoice is only presented again while it is far from expiring)
+                let retry = forced.is_none()
+                    && last_refused.is_some()
+                    && rng.chance(1, 2)
+                    && !(last_route >= 2 && now > last_invoice_time + 1800);
                 let amt = if retry { last_refused.unwrap().1 } else { amt };
                 if !retry {
                     hash_ctr += 1;
@@ -292,7 +299,54 @@ pub fn node(args: &Args) {
                 let mut h = [0u8; 32];
                 h[0] = if retry { last_refused.unwrap().0 } else { hash_ctr };
                 h[1] = (case & 0xff) as u8;
-                let ok = node.add_keysend(payee(), PaymentHash(h), amt).expect("add_keysend");
+                // the approval arrives as a keysend or as a BOLT11 invoice, through the Node call or
+                // as the protocol message to a RootHandler with an approving approver; a retry
+                // repeats the very same request
+                let route = if retry { last_route } else { rng.below(4) as u8 };
+                last_route = route;
+                let ok = {
+                    use vls_protocol::msgs::{self, Message, SerBolt};
+                    use vls_protocol_signer::handler::Handler;
+                    match route {
+                        0 => node.add_keysend(payee(), PaymentHash(h), amt).expect("add_keysend"),
+                        1 => {
+                            let root = make_root_handler(&node, 6);
+                            let m = msgs::PreapproveKeysend {
+                                destination: vls_protocol::model::PubKey(payee().serialize()),
+                                payment_hash: vls_protocol::model::Sha256(h),
+                                amount_msat: amt,
+                            };
+                            let msg = msgs::from_vec(m.as_vec()).expect("request survives the wire");
+                            match root.handle(msg).map(|rep| msgs::from_vec(rep.as_vec())) {
+                                Ok(Ok(Message::PreapproveKeysendReply(rep))) => rep.result,
+                                other => panic!("unexpected PreapproveKeysend outcome: {:?}", other.is_ok()),
+                            }
+                        }
+                        _ => {
+                            if !retry || last_invoice.is_none() {
+                                last_invoice = Some(make_bolt11(h, amt, now));
+                                last_invoice_time = now;
+                            }
+                            let inv = last_invoice.clone().unwrap();
+                            if route == 2 {
+                                node.add_invoice(inv).expect("add_invoice")
+                            } else {
+                                let root = make_root_handler(&node, 6);
+                                let s = match &inv {
+                                    lightning_signer::invoice::Invoice::Bolt11(b) => b.to_string(),
+                                    _ => unreachable!(),
+                                };
+                                let m = msgs::PreapproveInvoice { invstring: vls_protocol::serde_bolt::WireString(s.into_bytes()) };
+                                let msg = msgs::from_vec(m.as_vec()).expect("request survives the wire");
+                                match root.handle(msg).map(|rep| msgs::from_vec(rep.as_vec())) {
+                                    Ok(Ok(Message::PreapproveInvoiceReply(rep))) => rep.result,
+                                    Err(e) => panic!("unexpected PreapproveInvoice error: {:?} (amount {} msat at {})", e, amt, now),
+                                    _ => panic!("unexpected PreapproveInvoice reply"),
+                                }
+                            }
+                        }
+                    }
+                };
                 last_refused = if ok { None } else { Some((h[0], amt)) };
                 if ok {
                     n_ok += 1;
